@@ -178,6 +178,10 @@ func (c *boolExprSimplifyChecker) combineChecks(cur *astutil.Cursor) bool {
 }
 
 func (c *boolExprSimplifyChecker) removeIncDec(cur *astutil.Cursor) bool {
+	if c.hasFloats {
+		// `x+1 > y` is not `x >= y` for floats (x=0, y=0.5).
+		return false
+	}
 	cmp := astcast.ToBinaryExpr(cur.Node())
 
 	matchOneWay := func(op token.Token, x, y *ast.BinaryExpr) bool {
